@@ -65,7 +65,27 @@ pub fn corr(ctx: &mut Ctx) {
         let p = SetSketchParams::new(b, m, a, q);
         ctx.begin_case(&format!("pj dump/reload b={:e} m={} a={:e} q={}", b, m, a, q));
         ctx.mark_nontrivial();
+        // history of the directory before this dump: nothing / an intact file of parameters differing in exactly
+        // one field / a torn file / a longer foreign file.  The dump must REPLACE whatever is there: the bytes
+        // compared with the model below are those found after the dump.
         let _ = std::fs::remove_file(&file);
+        match c % 8 {
+            0 | 4 => ctx.count("history=fresh directory"),
+            1 | 2 | 3 | 5 => {
+                let (b0, m0, a0, q0) = match c % 8 { 1 => (gen_f(ctx, c + 7), m, a, q), 2 => (b, m ^ 1, a, q), 3 => (b, m, gen_f(ctx, c + 11), q), _ => (b, m, a, q ^ 1) };
+                let _ = catch(|| SetSketchParams::new(b0, m0, a0, q0).dump_json(&dir));
+                ctx.count(["", "history=intact file, other b", "history=intact file, other m", "history=intact file, other a", "", "history=intact file, other q"][c as usize % 8]);
+            }
+            6 => {
+                let _ = catch(|| SetSketchParams::new(a, q, b, m).dump_json(&dir));
+                if let Ok(old) = std::fs::read(&file) { std::fs::write(&file, &old[..old.len() / 2]).unwrap(); }
+                ctx.count("history=torn file");
+            }
+            _ => {
+                std::fs::write(&file, format!("{{\"b\":1.5,\"m\":1,\"a\":2.5,\"q\":3,\"pad\":\"{}\"}}", "x".repeat(300))).unwrap();
+                ctx.count("history=longer foreign file");
+            }
+        }
         let d = catch(|| p.dump_json(&dir));
         if !matches!(d, Ok(Ok(()))) {
             ctx.oracle_failure(serde_json::json!({"kind":"impl_violates_property","what":"dump_json failed","b":b,"m":m,"a":a,"q":q}));
